@@ -2591,7 +2591,7 @@ BUFR_Dataset  *bufr_decode_message_subsets( BUFR_Message *msg, BUFR_Tables *tabl
                      continue;
                      }
                   ival = bufr_descriptor_get_ivalue( cb31 );
-                  tmplist = bufr_expand_node_descriptor( bsq2->list, node, OP_EXPAND_DELAY_REPL|OP_ZDRC_IGNORE, tables, &skip, &errcode, &s4 );
+                  tmplist = bufr_expand_node_descriptor( bsq2->list, node, OP_EXPAND_DELAY_REPL|OP_ZDRC_IGNORE, dts->tmplte->tables, &skip, &errcode, &s4 );
                   if (errcode != 0)
                      {
                      dts->data_flag |= BUFR_FLAG_INVALID;
@@ -2790,7 +2790,7 @@ BUFR_Dataset  *bufr_decode_message_subsets( BUFR_Message *msg, BUFR_Tables *tabl
                for (i = 0; i < nbsubset1 ; i++)
                   {
                   node2 = nodes[i]->prev;
-                  tmplist = bufr_expand_node_descriptor( bseq[i]->list, node2, OP_EXPAND_DELAY_REPL|OP_ZDRC_IGNORE, tables, &skip, &errcode, &s4 );
+                  tmplist = bufr_expand_node_descriptor( bseq[i]->list, node2, OP_EXPAND_DELAY_REPL|OP_ZDRC_IGNORE, dts->tmplte->tables, &skip, &errcode, &s4 );
                   if (errcode != 0)
                      {
                      dts->data_flag |= BUFR_FLAG_INVALID;                    
